@@ -233,6 +233,21 @@ class C18Run(object):
         n_clients = 1 + ch.draw(3, 'nclients')
         self.clients = []
         state = {'tor': None, 'left': n_clients}
+        # fault: Tor answers the first question about its SOCKS ports with a transient error. That client fails; the
+        # ones that come after its failure are fresh attempts and find the listener Tor has
+        self.transient_fault = not self.dunder_fault and ch.chance(1, 4, 'transientfault')
+        if self.transient_fault:
+            state['left'] = n_clients = max(2, n_clients)
+            orig_getconf = tor.verbs['GETCONF']
+            hit = []
+
+            def getconf(rest):
+                if rest.strip().lower() == 'socksport' and not hit:
+                    hit.append(1)
+                    sim.fault('tor-answers-GETCONF-SOCKSPort-with-a-transient-error')
+                    return err(551, 'Internal error (simulated)')
+                return orig_getconf(rest)
+            tor.verbs['GETCONF'] = getconf
 
         def one():
             i = len(self.clients)
@@ -251,7 +266,8 @@ class C18Run(object):
             state['answered0'] = tor.answered
             one()
         self.proto.post_bootstrap.addCallback(start)
-        sim.add_source(lambda: [(4, 'next-client', one)] if state['tor'] is not None and state['left'] > 0 else [])
+        sim.add_source(lambda: [(4, 'next-client', one)] if state['tor'] is not None and state['left'] > 0 and
+                       (not self.transient_fault or self.clients[0]['result']) else [])
         n = 0
         while n < 3000 and sim.step():
             n += 1
@@ -273,12 +289,14 @@ class C18Run(object):
             if len(rec['result']) != 1:
                 sim.fail('C18.result-count', 'connect() of client %d fired %d times' % (rec['i'], len(rec['result'])))
             kind, val = rec['result'][0]
+            if self.transient_fault and rec['i'] == 0:
+                continue        # the client whose question met the error (what it reports is not prescribed)
             if kind != 'ok':
                 sim.fail('C18.client-failed-although-port-configured',
                          'client %d of %d (started while %d others were unfinished) failed: %s: %s; Tor has %r and its SOCKS listener accepts' % (
                              rec['i'], len(self.clients), sum(1 for c in self.clients[:rec['i']] if True), val.type.__name__,
                              val.getErrorMessage()[:140], effective))
-        if len(targets) != len(self.clients):
+        if len(targets) != len(self.clients) - (1 if self.transient_fault and self.clients[0]['result'][0][0] != 'ok' else 0):
             sim.fail('C18.client-connection-count', '%d clients made %d SOCKS connections' % (len(self.clients), len(targets)))
         sim.probe('existing-port-used')
 
